@@ -527,10 +527,10 @@ pub fn run(ctx: &Ctx) {
     ctx.hang_limit_s.store(300, std::sync::atomic::Ordering::Relaxed);
     // depth 1 over all leaves, depth 2 over the first 6 (quick) / 9 (thorough) leaves
     let d1 = trees(1, LEAVES.len());
-    let d2 = trees(2, ctx.pick(6, 8));
+    let d2 = trees(2, ctx.pick(6, 11));
     let styles_wrap: Vec<(u8, &str)> = vec![(0, "calc"), (1, "calc"), (2, "calc"), (3, "calc")];
     let nsw = styles_wrap.len() as u64;
-    for (sub, ts, bound) in [("depth1-all-leaves", &d1, "all trees of depth <= 1 over 11 leaves"), ("depth2", &d2, "all trees of depth <= 2 over the first 6 (thorough 8) leaves")] {
+    for (sub, ts, bound) in [("depth1-all-leaves", &d1, "all trees of depth <= 1 over 11 leaves"), ("depth2", &d2, "all trees of depth <= 2 over the first 6 (thorough all 11) leaves")] {
         par(
             ctx,
             sub,
